@@ -148,6 +148,8 @@ struct LeafState {
     ready_waker: Option<Waker>,
     /// (round, waker id, outcome 'P'/'R'/'E')
     ready_polls: Vec<(u64, Option<u64>, char)>,
+    /// calls made although the latest readiness answer of this leaf was an error
+    called_after_ready_err: u32,
 }
 
 #[derive(Default)]
@@ -308,6 +310,12 @@ impl Service<u32> for LeafSvc {
     fn call(&self, req: u32) -> Self::Future {
         let id = self.spec.id;
         ev('c', id, req);
+        mon(|m| {
+            let l = m.leaf(id);
+            if l.ready_polls.last().map(|p| p.2) == Some('E') {
+                l.called_after_ready_err += 1;
+            }
+        });
         let out = if self.spec.call_err { Err(leaf_err(id)) } else { Ok(leaf_fn(id, req)) };
         script_fut(format!("leaf{id}.call"), self.spec.call_pending, out)
     }
@@ -893,6 +901,10 @@ fn check_pending_futures(round: u64, what: &str, root_rec: &vh_core::exec::WakeR
     Ok(())
 }
 
+fn called_after_ready_err() -> Option<u8> {
+    mon(|m| m.leaves.iter().find(|(_, l)| l.called_after_ready_err > 0).map(|(id, _)| *id))
+}
+
 fn polled_after_done() -> Option<String> {
     mon(|m| m.futs.iter().find(|f| f.polled_after_done > 0).map(|f| f.owner.clone()))
 }
@@ -910,6 +922,12 @@ fn drive_strict<F: Future>(fut: Pin<&mut F>, what: &str, pending_counter: &mut u
         let r = fut.as_mut().poll(&mut cx);
         if let Some(owner) = polled_after_done() {
             return fail("C12:inner-future-polled-after-completion", format!("{what}: {owner} was polled again after it returned Ready"));
+        }
+        if let Some(id) = called_after_ready_err() {
+            return fail(
+                "C12:readiness-error-treated-as-ready",
+                format!("{what}: leaf service {id} answered its readiness check with an error and was called nevertheless (the error was not reported in place of ready)"),
+            );
         }
         match r {
             Poll::Ready(v) => return Ok(v),
